@@ -21,11 +21,13 @@ Definition rf_step (w : N) (e : event) : option N :=
   end.
 Definition c16_resume_fits (es : list event) : bool := scan rf_step 0 es.
 
-(* c16_window_const: the window of a connection that continues a session (Setup not
-   fresh) is not smaller than the window of the previous connection that was set up;
-   and NextID never hands out an id that is still in the outgoing store (it would need
-   65535 allocations while one message stays unacknowledged).  [pk_ids] are the ids in
-   the outgoing store, read off the trace: saved and not deleted. *)
+(* c16_window_const: as long as the peer has not acknowledged an id that was not in
+   flight (the wb_spur flag of the c16_bound scanner, which is run alongside),
+     - the window of a connection that continues a session (Setup not fresh) is not
+       smaller than the window of the previous connection that was set up, and
+     - NextID does not hand out an id that is still in the outgoing store (it would need
+       65535 allocations while one message stays unacknowledged).
+   [pk_ids] are the ids in the outgoing store, read off the trace: saved and not deleted. *)
 Record pk_st := PkSt { pk_last : N; pk_ids : list N }.
 Definition pk_step (v : pk_st) (e : event) : option pk_st :=
   match e with
@@ -40,7 +42,14 @@ Definition pk_step (v : pk_st) (e : event) : option pk_st :=
   | ENextId _ id => if nmem id (pk_ids v) then None else Some v
   | _ => Some v
   end.
-Definition c16_window_const (es : list event) : bool := scan pk_step (PkSt 0 []) es.
+Definition pkw_step (x : wb_st * pk_st) (e : event) : option (wb_st * pk_st) :=
+  let (t, v) := x in
+  let t' := match wb_step t e with Some t' => t' | None => t end in
+  match pk_step v e with
+  | Some v' => Some (t', v')
+  | None => if wb_spur t then Some (t', v) else None
+  end.
+Definition c16_window_const (es : list event) : bool := scan pkw_step (WbSt 0 [] false, PkSt 0 []) es.
 
 (* the scanner state reached after a trace *)
 Fixpoint srun {S : Type} (f : S -> event -> option S) (t : S) (es : list event) : option S :=
